@@ -42,6 +42,13 @@ MUTANTS = [
  ("c07-recv-copies", "C07", [(CH, "            let result = unsafe { &mut *self.storage[idx as usize - 1].get() }\n                .take()\n                .expect(\"Full slot with nothing in it\");", "            let result = unsafe { std::ptr::read(self.storage[idx as usize - 1].get()) }\n                .expect(\"Full slot with nothing in it\");")], 30000),
  ("c07-leak-when-full", "C07", [(CH, "            enqueue(&self.full, empty_idx);\n        }\n    }", "            enqueue(&self.full, empty_idx);\n        } else {\n            std::mem::forget(val);\n        }\n    }")], 30000),
  ("c08-send-waits-for-slot", "C08", [(CH, "        if let Some(empty_idx) = dequeue(&self.empty) {", "        let got = loop { if let Some(i) = dequeue(&self.empty) { break Some(i); } };\n        if let Some(empty_idx) = got {")], 20000),
+ ("c09-wake-before-store", "C09", [(BE, "            ex.store(slot, signal, act);\n            write.wake_readers();", "            write.wake_readers();\n            ex.store(slot, signal, act);")], 60000),
+ ("c10-load-does-not-clear", "C10", [(EX, "            .compare_exchange(true, false, Ordering::SeqCst, Ordering::Relaxed)\n            .is_ok()", "            .compare_exchange(true, true, Ordering::SeqCst, Ordering::Relaxed)\n            .is_ok()")], 20000),
+ ("c10-scan-reports-neighbour", "C10", [(BE, "            let result = self.pending.exfiltrator.load(slot, sig as c_int);", "            let result = self.pending.exfiltrator.load(slot, (sig as c_int) ^ 1);")], 20000),
+ ("c11-close-wakes-before-flag", "C11", [(BE, "        self.delivery_state.closed.store(true, Ordering::SeqCst);\n        self.write.wake_readers();", "        self.write.wake_readers();\n        self.delivery_state.closed.store(true, Ordering::SeqCst);")], 60000),
+ ("c11-close-does-not-wake", "C11", [(BE, "        self.delivery_state.closed.store(true, Ordering::SeqCst);\n        self.write.wake_readers();", "        self.delivery_state.closed.store(true, Ordering::SeqCst);")], 20000),
+ ("c11-poll-no-repoll", "C11", [(BE, "            match self.signals.borrow_mut().poll_pending(has_signals) {\n                Ok(Some(pending)) => self.iter = pending,", "            if self.signals.borrow_mut().handle.is_closed() { break; }\n            if false { let _ = self.signals.borrow_mut().poll_pending(has_signals); }\n            match Ok::<Option<Pending<E>>, Error>(None) {\n                Ok(Some(pending)) => self.iter = pending,")], 20000),
+ ("c11-revert-fix", "C11", [(BE, "                    if self.signals.borrow_mut().handle.is_closed() {\n                        break;\n                    }\n                    return PollResult::Pending;", "                    return PollResult::Pending;")], 30000),
  ("c18-poison-fatal", "C18", [(HL, "            .unwrap_or_else(PoisonError::into_inner);", "            .unwrap();")], 60000),
  ("c18-barrier-needs-arrival", "C18", [(HL, "*seen = *seen || slot.load(Ordering::SeqCst) == 0;", "*seen = *seen || slot.load(Ordering::SeqCst) == 1;")], 30000),
 ]
